@@ -4,7 +4,7 @@
     BroadcastOperator, namespace-level operations); specification: Adapter/BroadcastSpec.v. *)
 From SioV Require Import Adapter.Rooms Adapter.RoomsProofs Adapter.Broadcast Adapter.BroadcastSpec
   Adapter.BroadcastProofs Adapter.BroadcastNspProofs Adapter.BroadcastCheck Adapter.Broadcast3x3
-  Adapter.BroadcastConc Adapter.BroadcastConcProofs Adapter.BroadcastOrder.
+  Adapter.BroadcastConc Adapter.BroadcastConcProofs Adapter.BroadcastOrder Adapter.BroadcastInterleaved.
 
 (** After ANY history of AddAll / Delete / DeleteAll (any sockets, any rooms, any length) the two
     indexes of the adapter are mutually inverse and no room is left with an empty socket set. *)
@@ -70,6 +70,24 @@ Theorem C04_broadcast_exact_after_history : forall (h : list nop) from T E,
   NoDup (op_targets (nrun h) from T E) /\
   forall s, s ∈ op_targets (nrun h) from T E <-> s ∈ an_op_selected (anrun h) from T E.
 Proof. exact nrun_broadcast_exact. Qed.
+
+(** SocketsJoin / SocketsLeave / DisconnectSockets run their callback inside apply's loops, on the
+    indexes being iterated.  After every history, the interleaved execution ([apply_i]: rooms
+    looked up when reached, keys removed before being reached not produced, except set computed
+    once; any iteration orders) satisfies the invariant and denotes exactly the abstract state after
+    the operation ([J n a] = invariant of n + n denotes a) - the same as the model used in the
+    histories above, which selects the sockets in the state before the call. *)
+Theorem C04_sockets_ops_interleaved :
+  forall (h : list nop) (ord : gset positive -> list positive) (Tl all : list positive) from T E,
+  (forall x s, s ∈ ord x <-> s ∈ x) ->
+  (forall r, r ∈ Tl <-> r ∈ (list_to_set T : gset positive)) ->
+  (forall s, s ∈ all <-> s ∈ dom (a_sids (n_ad (nrun h)))) ->
+  let TT := list_to_set T in let EE := sender_except from (list_to_set E) in
+  (forall rs, J (apply_i (n_join rs) ord (nrun h) TT EE Tl all) (anrun (h ++ [NSocketsJoin from T E rs]))) /\
+  (forall rs, J (apply_i (fun n' s => foldl (fun n'' r => n_leave r n'' s) n' rs) ord (nrun h) TT EE Tl all)
+             (anrun (h ++ [NSocketsLeave from T E rs]))) /\
+  J (apply_i n_disconnect ord (nrun h) TT EE Tl all) (anrun (h ++ [NDisconnectSockets from T E])).
+Proof. exact interleaved_after_history. Qed.
 
 (** A broadcast issued through a socket never reaches that socket - as long as the socket is
     still in the room named by its own id (the side condition excludes exactly the finding class
